@@ -508,7 +508,7 @@ func (c *Cluster) Merge(regionID1, regionID2 uint64) {
 	c.Lock()
 	defer c.Unlock()
 
-	c.regions[regionID1].merge(c.regions[regionID2].Meta.GetEndKey())
+	c.regions[regionID1].merge(c.regions[regionID2].Meta.GetEndKey(), c.regions[regionID2].Meta.GetRegionEpoch().GetVersion())
 	delete(c.regions, regionID2)
 }
 
@@ -727,14 +727,24 @@ func (r *Region) split(newRegionID uint64, key MvccKey, peerIDs []uint64, leader
 	for _, peer := range r.Meta.Peers {
 		storeIDs = append(storeIDs, peer.GetStoreId())
 	}
-	region := newRegion(newRegionID, storeIDs, peerIDs, leaderPeerID)
+	// Like TiKV, the new region inherits the epoch of the region it is split from, so that both halves end up
+	// with a version greater than that of any older region covering their ranges.
+	region := newRegion(newRegionID, storeIDs, peerIDs, leaderPeerID,
+		r.Meta.GetRegionEpoch().GetConfVer(), r.Meta.GetRegionEpoch().GetVersion())
 	region.updateKeyRange(key, r.Meta.EndKey)
 	r.updateKeyRange(r.Meta.StartKey, key)
 	return region
 }
 
-func (r *Region) merge(endKey MvccKey) {
+func (r *Region) merge(endKey MvccKey, version uint64) {
 	r.Meta.EndKey = endKey
+	// Like TiKV, the merged region's version is greater than that of both merged regions.
+	if version > r.Meta.GetRegionEpoch().GetVersion() {
+		r.Meta.RegionEpoch = &metapb.RegionEpoch{
+			ConfVer: r.Meta.GetRegionEpoch().GetConfVer(),
+			Version: version,
+		}
+	}
 	r.incVersion()
 }
 
